@@ -7,8 +7,10 @@ generator per family over *named* atoms, compared with the formula's clauses as
 sets of sets of named literals at every size; (iii) direct enumeration of
 orders / colourings.
 """
+import collections
 import itertools
 import math
+import random
 
 from .. import tt
 from .. import semantic as S
@@ -302,6 +304,35 @@ def case_peb(ctx, cls, n, masks, as_nx=False):
             contradiction(ctx, "peb", desc, F, key)
         else:
             S.check_models(ctx, "peb", desc, F, [[]], key, nontrivial=False)
+        # the docstring lets the caller attach an enumeration of the vertices (`ordered_vertices`): whether the
+        # variables follow it or not, the clauses must be the axioms of this DAG under one of the two namings
+        if n >= 2 and as_nx in (False, "duck") and mask % 3 == 0:
+            r = ctx.rng("c03-ordered", n, mask)
+            for order in (list(range(n, 0, -1)), r.sample(range(1, n + 1), n), list(range(1, n + 1))):
+                D2, _ = S.dag(n, mask, as_nx)
+                try:
+                    D2.ordered_vertices = list(order)
+                except AttributeError:
+                    break
+                F2 = make(ctx, "peb", cls, desc + " ordered_vertices=%r" % order, g.PebblingFormula, D2)
+                if F2 is None:
+                    continue
+                ctx.count("peb_with_ordered_vertices")
+                got, other = named_clauses(F2)
+                rank = {v: i for i, v in enumerate(order, start=1)}
+                pred = {v: sorted(u for (u, w) in E if w == v) for v in range(1, n + 1)}
+                sinks = [v for v in range(1, n + 1) if not any(u == v for (u, _) in E)]
+                namings = []
+                for name in (lambda v: "x(%d)" % v, lambda v: "x(%d)" % rank[v]):
+                    ax = {frozenset([(name(p_), False) for p_ in pred[v]] + [(name(v), True)]) for v in range(1, n + 1)}
+                    ax |= {frozenset([(name(v), False)]) for v in sinks}
+                    namings.append(ax)
+                if other or got not in namings:
+                    ctx.violation("peb:axioms:ordered-vertices",
+                                  "%s with D.ordered_vertices = %r: the clauses %s are the pebbling axioms neither with "
+                                  "x(v) for vertex v nor with x(i) for the i-th listed vertex"
+                                  % (desc, order, sorted(sorted(("" if sg else "~") + nm for nm, sg in c) for c in got)))
+                contradiction(ctx, "peb", desc, F2, ("peb-ordered", n, mask, tuple(order), cls, S.rep_tag(as_nx)))
 
 
 def stone_axioms(n, E, stones_of, nstones):
@@ -633,6 +664,160 @@ def case_ptn(ctx, cls, Ns):
 
 
 # ------------------------------------------------------------------ large sizes: structural only
+# ------------------------------------------------------------------ the same formulas asked on the command line
+_GRAPHS_BY_DEGREE = {}
+
+
+def regular_graphs(n, d):
+    """All d-regular graphs on vertices 1..n (n <= 6)."""
+    if (n, d) not in _GRAPHS_BY_DEGREE:
+        prs = S.pairs(n)
+        out = []
+        for sub in itertools.combinations(prs, n * d // 2):
+            deg = collections.Counter(v for e in sub for v in e)
+            if all(deg[v] == d for v in range(1, n + 1)):
+                out.append(sorted(sub))
+        _GRAPHS_BY_DEGREE[n, d] = out
+    return _GRAPHS_BY_DEGREE[n, d]
+
+
+def axiom_set(reference):
+    ref = set()
+    for cl in reference:
+        fs = frozenset(cl)
+        if not any((nm, not sg) in fs for nm, sg in fs):
+            ref.add(fs)
+    return ref
+
+
+OP_FLAGS = {"plain": [], "total": ["--total"], "smart": ["--smart"], "knuth2": ["--knuth2"], "knuth3": ["--knuth3"]}
+
+
+def case_cli(ctx, tool, part):
+    """cnfgen / pbgen asked for the documented contradictions: the formula object the tool builds has exactly the
+    axioms of the request -- for `op N d` the axioms of the graph ordering principle (in the requested variant) of
+    *some* d-regular graph on N vertices."""
+    import importlib
+    from cnfgen.clitools.graph_args import make_graph_from_spec
+    cli = importlib.import_module("cnfgen.clitools." + tool).cli
+    r = ctx.rng("c03-cli", tool, part)
+
+    def run(argv, seed=None):
+        full = [tool] + (["--seed", str(seed)] if seed is not None else []) + ["-q"] + argv
+        st, val = ctx.call(cli, full, mode="formula")
+        ctx.count("cli_runs")
+        if st != "ok":
+            ctx.violation("cli:%s:raises:%s" % (argv[0], type(val).__name__),
+                          "`%s` ended in %r" % (" ".join(full), val))
+            return None
+        return val
+
+    def where(flags, pos):
+        return flags + pos if r.random() < 0.5 else pos + flags
+
+    if part == "op":
+        for vname, flags in OP_FLAGS.items():
+            for plant in (False, True):
+                pf = flags + (["--plant"] if plant else [])
+                for N in (1, 2, 3, 4, 5):
+                    desc = "`%s op %d %s`" % (tool, N, " ".join(pf))
+                    F = run(["op"] + where(pf, [str(N)]))
+                    if F is None:
+                        continue
+                    structural(ctx, "cli-op", desc, F, gop_axioms(N, S.pairs(N), vname, plant),
+                               key=("cli-op", tool, N, vname, plant))
+                for (N, d) in ((4, 2), (5, 2), (6, 3), (4, 3), (5, 4), (6, 2), (6, 4), (3, 2)):
+                    seed = r.randrange(1 << 20)
+                    desc = "`%s --seed %d op %d %d %s`" % (tool, seed, N, d, " ".join(pf))
+                    F = run(["op"] + where(pf, [str(N), str(d)]), seed)
+                    if F is None:
+                        continue
+                    got, other = named_clauses(F)
+                    got = {fs for fs in got if not any((nm, not sg) in fs for nm, sg in fs)}
+                    ctx.count("structural_comparisons")
+                    ok = not other and any(got == axiom_set(gop_axioms(N, E, vname, plant)) for E in regular_graphs(N, d))
+                    ctx.count("cli_op_regular_graphs_tried", len(regular_graphs(N, d)))
+                    if not ok:
+                        ctx.violation("cli-op:axioms:no-regular-graph-fits",
+                                      "%s: the %d clauses are the %s%s ordering axioms of none of the %d %d-regular graphs "
+                                      "on %d vertices" % (desc, len(got), vname, " planted" if plant else "",
+                                                          len(regular_graphs(N, d)), d, N))
+                    ctx.judged(("cli-op-nd", tool, N, d, vname, plant), sample={"command": desc, "mode": "structural"})
+                for spec in (["complete", "4"], ["grid", "2", "3"], ["gnd", "6", "3"], ["gnm", "5", "6"], ["torus", "3"],
+                             ["complete", "2", "2"]):
+                    seed = r.randrange(1 << 20)
+                    random.seed(seed)
+                    G = make_graph_from_spec("simple", list(spec))
+                    n, E = G.number_of_vertices(), sorted(tuple(sorted(e)) for e in G.edges())
+                    desc = "`%s --seed %d op %s %s`" % (tool, seed, " ".join(spec), " ".join(pf))
+                    F = run(["op"] + where(pf, list(spec)), seed)
+                    if F is None:
+                        continue
+                    if spec[0] in ("gnd", "gnm"):
+                        # the tool may draw another graph than the replay: any graph of the requested kind will do
+                        got, other = named_clauses(F)
+                        got = {fs for fs in got if not any((nm, not sg) in fs for nm, sg in fs)}
+                        cands = regular_graphs(6, 3) if spec[0] == "gnd" else \
+                            [sorted(c) for c in itertools.combinations(S.pairs(5), 6)]
+                        if other or not any(got == axiom_set(gop_axioms(n, E2, vname, plant)) for E2 in [E] + cands):
+                            ctx.violation("cli-op:axioms:no-graph-of-the-request-fits", "%s: the clauses are the %s ordering "
+                                          "axioms of no graph the specification can produce" % (desc, vname))
+                        ctx.judged(("cli-op-g", tool, tuple(spec), vname, plant), sample={"command": desc})
+                    else:
+                        structural(ctx, "cli-op", desc, F, gop_axioms(n, E, vname, plant),
+                                   key=("cli-op-g", tool, tuple(spec), vname, plant))
+    elif part == "dags":
+        for spec in (["pyramid", "1"], ["pyramid", "2"], ["pyramid", "3"], ["tree", "2"], ["tree", "3"], ["path", "1"],
+                     ["path", "5"], ["path", "0"]):
+            D = make_graph_from_spec("dag", list(spec))
+            n, E = D.number_of_vertices(), sorted(tuple(e) for e in D.edges())
+            desc = "`%s peb %s`" % (tool, " ".join(spec))
+            F = run(["peb"] + spec)
+            if F is not None:
+                structural(ctx, "cli-peb", desc, F, peb_axioms(n, E), key=("cli-peb", tool, tuple(spec)))
+            for st_ in (1, 2, 3):
+                if n * st_ > 12:
+                    continue
+                desc = "`%s stone %d %s`" % (tool, st_, " ".join(spec))
+                F = run(["stone", str(st_)] + spec)
+                if F is not None:
+                    stones_of = {v: list(range(1, st_ + 1)) for v in range(1, n + 1)}
+                    structural(ctx, "cli-stone", desc, F, stone_axioms(n, E, stones_of, st_),
+                               key=("cli-stone", tool, tuple(spec), st_))
+        for (a, b, c) in ((1, 1, 1), (2, 2, 2), (3, 2, 4), (2, 4, 2), (1, 2, 1)):
+            desc = "`%s cpls %d %d %d`" % (tool, a, b, c)
+            F = run(["cpls", str(a), str(b), str(c)])
+            if F is not None:
+                structural(ctx, "cli-cpls", desc, F, cpls_axioms(a, b, c), key=("cli-cpls", tool, a, b, c))
+    elif part == "colourings":
+        g = gens()
+        K = S.formula_classes()["CNF" if tool == "cnfgen" else "OPB"]
+        items = [(["ram", str(s_), str(k), str(N)], g.RamseyNumber, (s_, k, N))
+                 for (s_, k, N) in ((2, 2, 3), (3, 3, 5), (2, 3, 4), (3, 2, 4), (3, 3, 6), (1, 3, 3), (4, 3, 5))]
+        items += [(["vdw", str(N)] + [str(k) for k in ks], g.VanDerWaerden, (N,) + ks)
+                  for (N, ks) in ((5, (2, 3)), (8, (3, 3)), (6, (3, 2)), (7, (2, 2, 3)), (9, (3, 3)), (4, (1, 3)), (6, (3, 3, 2, 2)))]
+        items += [(["ptn", str(N)], g.PythagoreanTriples, (N,)) for N in (0, 4, 5, 13, 17, 25)]
+        for argv, fn, a in items:
+            desc = "`%s %s`" % (tool, " ".join(argv))
+            F = run(argv)
+            if F is None:
+                continue
+            st, ref = ctx.call(fn, *a, formula_class=K)
+            if st != "ok":
+                continue
+            ctx.count("structural_comparisons")
+            same = list(F.all_variable_labels()) == list(ref.all_variable_labels()) and \
+                sorted(repr(sorted(c, key=repr) if isinstance(c, list) and c and not isinstance(c[-1], int) else c) for c in F) == \
+                sorted(repr(sorted(c, key=repr) if isinstance(c, list) and c and not isinstance(c[-1], int) else c) for c in ref)
+            if not same:
+                ctx.violation("cli-%s:axioms:differ-from-the-library-call" % argv[0],
+                              "%s: variables or constraints differ from those of %s%r" % (desc, fn.__name__, a))
+            ctx.judged(("cli-col", tool, tuple(argv)), sample={"command": desc, "mode": "against the library call"})
+            if F.number_of_variables() != ref.number_of_variables():
+                ctx.violation("cli-%s:numvar" % argv[0], "%s has %d variables, the formula of the library call %d"
+                              % (desc, F.number_of_variables(), ref.number_of_variables()))
+
+
 def case_large(ctx, cls):
     g = gens()
     # ordering principle 12, all variants
@@ -737,6 +922,9 @@ def workload(tier, seed):
         yield "op_big", {"cls": "CNF", "N": 258, "vname": "smart", "plant": False}
         yield "op_big", {"cls": "OPB", "N": 257, "vname": "smart", "plant": True}
         yield "op_big", {"cls": "CNF", "N": 300, "vname": "smart", "plant": True}
+    for tool in ("cnfgen", "pbgen"):
+        for part in ("op", "dags", "colourings"):
+            yield "cli", {"tool": tool, "part": part}
     for cls in ("CNF", "OPB"):
         for N in range(0, 6 if quick else 7):
             yield "op", {"cls": cls, "N": N}
